@@ -6,7 +6,7 @@ import io
 from hypothesis import strategies as st
 
 from pbt import gens, libside, refsem
-from pbt.drive import Err, HarnessError, HypStage, Violation, import_repo, lib
+from pbt.drive import EnumStage, Err, HarnessError, HypStage, Violation, import_repo, lib
 from pbt.refsem import SCALARS, S, Sem
 
 ID = "C16"
@@ -543,6 +543,73 @@ def _run_shapes(case, ctx):
         ctx.sample(what, "shapes")
 
 
+# ---------------------------------------------------------------- pointers that are members of a union
+
+UNION_FORMS = {
+    "direct": ("union U {{ uint16 *p; {raw} raw; }};", lambda u: u.p),
+    "in-struct": ("struct In {{ uint16 *q; }};\nunion U {{ In s; {raw} raw; }};", lambda u: u.s.q),
+    "in-array": ("union U {{ uint16 *ps[1]; {raw} raw; }};", lambda u: u.ps[0]),
+    "anonymous": ("union U {{ struct {{ uint16 *p; }}; {raw} raw; }};", lambda u: u.p),
+}
+
+
+def unionptr_cases():
+    for ptr in ("uint16", "uint32", "uint64"):
+        for endian in "<>":
+            for compiled in (False, True):
+                for form in UNION_FORMS:
+                    for where in ("top", "member", "element"):
+                        for pad in (0, 3):
+                            yield {"unionptr": True, "ptr": ptr, "endian": endian, "compiled": compiled, "form": form, "where": where, "pad": pad}
+
+
+def _run_unionptr(case, ctx):
+    """A pointer read as (part of) a union member: width, value and dump as anywhere else, and dereferencing reads the
+    target at that absolute offset of the stream the union was parsed from."""
+    m = import_repo()
+    w = SCALARS[case["ptr"]][1]
+    bo = "little" if case["endian"] == "<" else "big"
+    cs = m.cstruct(endian=case["endian"], pointer=case["ptr"])
+    text, get = UNION_FORMS[case["form"]]
+    text = text.format(raw=case["ptr"]) + "\nstruct Root { uint8 h; U u; uint8 t; };\nstruct Arr { uint8 h; U us[2]; uint8 t; };\n"
+    r = lib(cs.load, text, compiled=case["compiled"])
+    if isinstance(r, Err):
+        raise Violation("definition-rejected", f"{text}: {r}", r.where)
+    pad = case["pad"]
+    where = case["where"]
+    hdr = {"top": w, "member": 1 + w + 1, "element": 1 + 2 * w + 1}[where]
+    addr = pad + hdr + 1
+    P = addr.to_bytes(w, bo)
+    head = {"top": P, "member": b"\x07" + P + b"\x09", "element": b"\x07" + P + P + b"\x09"}[where]
+    image = bytes(range(0x60, 0x60 + pad)) + head + b"\xcc" + (0x1234).to_bytes(2, bo) + b"\xdd"
+    T = {"top": cs.U, "member": cs.Root, "element": cs.Arr}[where]
+    stream = io.BytesIO(image)
+    stream.seek(pad)
+    obj = lib(T, stream)
+    what = {"definition": text, "ptr": case["ptr"], "endian": case["endian"], "compiled": case["compiled"], "parsed": where, "at": pad, "image": image.hex()}
+    if isinstance(obj, Err):
+        raise Violation("header-parse-raised", f"{what}: {obj}", obj.where)
+    if stream.tell() != pad + hdr:
+        raise Violation("pointer-width", f"{what}: consumed up to {stream.tell()}, expected {pad + hdr}")
+    unions = [obj] if where == "top" else [obj.u] if where == "member" else list(obj.us)
+    d = lib(obj.dumps)
+    if isinstance(d, Err) or d != head:
+        raise Violation("dumps-changes-address", f"{what}: dumps {d!r}, read {head.hex()}")
+    for i, u in enumerate(unions):
+        p = lib(get, u)
+        if isinstance(p, Err) or int(p) != addr or int(u.raw) != addr:
+            raise Violation("pointer-value", f"{what}: union #{i}: pointer {p!r}, raw {u.raw!r}, stored address {addr}")
+        before = stream.tell()
+        rd = lib(p.dereference)
+        if stream.tell() != before:
+            raise Violation("dereference-moved-stream", f"{what}: tell() {before} -> {stream.tell()}")
+        if isinstance(rd, Err) or rd != 0x1234:
+            raise Violation("pointer-in-union:dereference", f"{what}: union #{i}: the pointer holds {addr}; dereference gave {rd!r}, the bytes at {addr} of the stream decode to {0x1234:#x}", rd.where if isinstance(rd, Err) else None)
+    ctx.count("pointer-in-union:" + case["form"])
+    ctx.mark_nontrivial(case)
+    ctx.sample(what, "union")
+
+
 _run_heap = run_case
 
 
@@ -551,6 +618,8 @@ def run_case(case, ctx):  # noqa: F811 - dispatch on the case kind
         return _run_reconf(case, ctx)
     if case.get("shapes"):
         return _run_shapes(case, ctx)
+    if case.get("unionptr"):
+        return _run_unionptr(case, ctx)
     return _run_heap(case, ctx)
 
 
@@ -564,4 +633,12 @@ def stages(tier):
         HypStage("heap", heap_case, examples=1500 if q else 20000, shards=8 if q else 16),
         HypStage("reconfigure", reconf_case, examples=400 if q else 3000, shards=1 if q else 2),
         HypStage("shapes", shapes_case, examples=400 if q else 8000, shards=4 if q else 8),
+        EnumStage("union-members", unionptr_cases, shards=2, scope="3 widths x 2 byte orders x 2 readers x 4 places of the pointer inside a union x union parsed on its own / as a member / as array elements x 2 start positions"),
     ]
+
+
+def _kf_union_pointer(case, v):
+    return bool(case.get("unionptr")) and v.kind == "pointer-in-union:dereference"
+
+
+KNOWN_PREDICATES = {"pointer-in-union-loses-stream": _kf_union_pointer}
